@@ -94,6 +94,7 @@ type scenario struct {
 	FlagsHow int    // which public way sets the flags (vlib.SetFlagsVia)
 	Disturb  int    // which scratch record is printed right before the record under test (vlib.Disturb; 0 none)
 	Layout   string // the logger's own time layout (SetTimeFormat); "": none. It governs the record's time field only
+	EP       string // name of the public entry point that issues the record when it is not written through (vlib.EntryPoints; "": LogAttrs)
 	How      int    // how the logger gets its format: 0 Set...Mode, 1 option of the package-level New, 2 option of New on a parent in another format, 3 With...Mode method
 	Thru     bool   // WriteThru with an explicit timestamp, else LogAttrs
 	Msg      string
@@ -182,7 +183,19 @@ func run(t vlib.TB, test string, sc scenario, attrsForThru slog.Attrs) {
 			lg.Set(sc.Args...)
 			lg.LogAttrs(context.Background(), sc.Sev, sc.Msg)
 		default:
-			lg.LogAttrs(context.Background(), sc.Sev, sc.Msg, sc.Args...)
+			issued := false
+			for _, ep := range vlib.EntryPoints {
+				if ep.Name == sc.EP && sc.EP != "" {
+					if ep.Pkg {
+						slog.SetDefault(lg) // Canon puts the original default logger back
+					}
+					ep.Call(lg, context.Background(), sc.Sev, sc.Msg, sc.Args)
+					issued = true
+				}
+			}
+			if !issued {
+				lg.LogAttrs(context.Background(), sc.Sev, sc.Msg, sc.Args...)
+			}
 		}
 	}()
 	writes := log.Writes()
@@ -225,6 +238,18 @@ func genScenario(t *rapid.T) (scenario, slog.Attrs) {
 	sevs := append(append([]slog.Level{}, vlib.Builtins...), custReg, custRaw)
 	sc.Sev = rapid.SampledFrom(sevs).Filter(func(l slog.Level) bool { return l != slog.OffLevel }).Draw(t, "severity")
 	sc.Thru = rapid.Bool().Draw(t, "writeThru")
+	{
+		// every public entry point that can carry this severity and attributes (the printf-style ones format the message)
+		var names []string
+		for _, ep := range vlib.EntryPointsFor(sc.Sev) {
+			if ep.Kind != "printf" && ep.Kind != "verbose" && !ep.NoArg {
+				names = append(names, ep.Name)
+			}
+		}
+		if len(names) > 0 && rapid.Bool().Draw(t, "viaAnotherEntryPoint") {
+			sc.EP = rapid.SampledFrom(names).Draw(t, "entryPoint")
+		}
+	}
 	sc.How = rapid.SampledFrom([]int{0, 0, 1, 2, 3}).Draw(t, "howFormatIsSet")
 	sc.FlagsHow = rapid.SampledFrom([]int{0, 0, 1, 2, 3, 4}).Draw(t, "flagsHow")
 	sc.Disturb = rapid.SampledFrom([]int{0, 0, 0, 1, 2, 3, 4, 5, 6}).Draw(t, "disturbance")
